@@ -198,7 +198,9 @@ def tlc_trace(spec_dir, spec, cfg, trace, workdir, timeout=1800, session_key=Non
     def start(i, sp, gl):
         meta = os.path.join(workdir, "meta%03d" % i)
         shutil.rmtree(meta, ignore_errors=True)
-        cmd = java_cmd("serial", xmx) + ["-workers", "1", "-config", cfg, "-metadir", meta, "-noGenerateSpecTE", spec]
+        tmpd = os.path.join(workdir, "jtmp")
+        os.makedirs(tmpd, exist_ok=True)     # TLC leaves a tlc-<n> directory in java.io.tmpdir per run: keep it in the work directory
+        cmd = java_cmd("serial", xmx, extra_props=["-Djava.io.tmpdir=" + tmpd]) + ["-workers", "1", "-config", cfg, "-metadir", meta, "-noGenerateSpecTE", spec]
         env = dict(os.environ)
         env["TRACE"] = sp
         if env_extra:
@@ -269,7 +271,9 @@ def tlc_mc(spec_dir, spec, cfg, workdir, tag, timeout=3600, workers=None, env_ex
     """Run TLC in model-checking mode.  Returns (rc, output)."""
     meta = os.path.join(workdir, "meta-" + tag)
     shutil.rmtree(meta, ignore_errors=True)
-    cmd = java_cmd("parallel", xmx) + ["-workers", str(workers or NCPU), "-config", cfg, "-metadir", meta,
+    tmpd = os.path.join(workdir, "jtmp")
+    os.makedirs(tmpd, exist_ok=True)
+    cmd = java_cmd("parallel", xmx, extra_props=["-Djava.io.tmpdir=" + tmpd]) + ["-workers", str(workers or NCPU), "-config", cfg, "-metadir", meta,
                                        "-cleanup", "-noGenerateSpecTE"]
     if coverage:
         cmd += ["-coverage", "1"]
